@@ -1183,6 +1183,9 @@ pub fn offset_inputs() -> Vec<Input> {
         for glob in [false, true] {
             for imported in [false, true] {
                 for elem in [false, true] {
+                  // `exported = false`: nothing refers to the table / memory, so the GC pass removes it, its segment and
+                  // (it should) the global that only the segment's offset names
+                  for exported in [true, false] {
                     let mut d = Desc::default();
                     d.types.push(Sig { params: vec![], results: vec![] });
                     let oty = if wide { T::I64 } else { T::I32 };
@@ -1200,18 +1203,23 @@ pub fn offset_inputs() -> Vec<Input> {
                         if imported {
                             d.imports.push(Imp { module: "env".into(), field: "tab".into(), kind: ImpKind::Table(0) });
                         }
-                        d.exports.push(ExportD { name: "t".into(), kind: wasm_encoder::ExportKind::Table, idx: 0 });
+                        if exported {
+                            d.exports.push(ExportD { name: "t".into(), kind: wasm_encoder::ExportKind::Table, idx: 0 });
+                        }
                         d.elems.push(ElemD { mode: ElemMode::Active { table: 0, offset, explicit_table: false }, ety: T::FuncRef, funcs_form: true, items: vec![Expr::Func(0)] });
                     } else {
                         d.mems.push(MemD { min: 1, max: None, m64: wide, shared: false, imported });
                         if imported {
                             d.imports.push(Imp { module: "env".into(), field: "mem".into(), kind: ImpKind::Mem(0) });
                         }
-                        d.exports.push(ExportD { name: "m".into(), kind: wasm_encoder::ExportKind::Memory, idx: 0 });
+                        if exported {
+                            d.exports.push(ExportD { name: "m".into(), kind: wasm_encoder::ExportKind::Memory, idx: 0 });
+                        }
                         d.data.push(DataD { mode: DataMode::Active { mem: 0, offset }, bytes: b"hello".to_vec() });
                     }
-                    let tag = format!("{}{}{}{}", if wide { "w" } else { "n" }, if glob { "g" } else { "c" }, if imported { "i" } else { "l" }, if elem { "e" } else { "d" });
+                    let tag = format!("{}{}{}{}{}", if wide { "w" } else { "n" }, if glob { "g" } else { "c" }, if imported { "i" } else { "l" }, if elem { "e" } else { "d" }, if exported { "x" } else { "u" });
                     out.push(Input { id: format!("offsets-{}", tag), bytes: d.encode(), source: format!("offsets:{}", tag) });
+                  }
                 }
             }
         }
